@@ -242,10 +242,10 @@ func checkC15(c *core.Ctx, l *core.Ledger) {
 	for _, id := range []string{"fieldGroupGenerator.String#1", "fieldGroupGenerator.Zap#1"} {
 		if t := findTemplate(mod, id); t != nil {
 			b1, b2 := mod.Lookup(t, "shouldRedact"), mod.Lookup(t, "redactedContent")
-			ok := b1 != nil && b1.Obj != nil && b1.Obj.Name() == "shouldRedact" && b2 != nil && b2.Obj != nil && b2.Obj.Name() == "redactedContent"
+			ok := b1 != nil && b1.Obj != nil && b1.Obj == c.LookupFunc("gen", "shouldRedact") && b2 != nil && b2.Obj != nil && b2.Obj == c.LookupFunc("gen", "redactedContent")
 			if id == "fieldGroupGenerator.Zap#1" {
 				b3 := mod.Lookup(t, "zapOptOut")
-				ok = ok && b3 != nil && b3.Obj != nil && b3.Obj.Name() == "zapOptOut"
+				ok = ok && b3 != nil && b3.Obj != nil && b3.Obj == c.LookupFunc("gen", "zapOptOut")
 			}
 			l.Check(ok, "ANNOT", id+":bindings", c.Rel(t.Pos), "template predicates are bound to gen.shouldRedact / gen.zapOptOut / gen.redactedContent", "template predicate names are bound to other functions")
 		}
